@@ -1,6 +1,7 @@
 package main
 
 import (
+	"bytes"
 	"encoding/binary"
 	"math"
 	"math/rand"
@@ -16,6 +17,9 @@ import (
 // bytes of their IEEE-754 bit pattern, so the specification compares bit patterns without knowing floats.
 //   {"kind":"enc","g":tree,"bo":0|1}            real encoder output (bytes, hex text) for a geometry
 //   {"kind":"dec","bytes":[...]}                real decoder on (possibly hostile) bytes, with allocation metering
+var c05PrevB, c05PrevBCopy []byte
+var c05PrevH, c05PrevHCopy string
+
 func init() {
 	families["c05"] = &Family{Run: runC05, Random: randomC05, Sandbox: true, DeadlineMS: 8000}
 }
@@ -91,7 +95,7 @@ func runC05(c map[string]interface{}) []Event {
 		if num(c["bo"]) == 1 {
 			order = binary.LittleEndian
 		}
-		e := Event{"ev": "enc", "bytes": []interface{}{}, "hex": []interface{}{}}
+		e := Event{"ev": "enc", "bytes": []interface{}{}, "hex": []interface{}{}, "keep": true}
 		e["out"] = safely(func() {
 			b, err := wkb.Encode(g, order)
 			if err != nil {
@@ -104,6 +108,10 @@ func runC05(c map[string]interface{}) []Event {
 				e["out2"] = "err:" + err.Error()
 				return
 			}
+			// the encodings returned for the previous geometry are still what they were
+			e["keep"] = bytes.Equal(c05PrevB, c05PrevBCopy) && c05PrevH == c05PrevHCopy
+			c05PrevB, c05PrevBCopy = b, append([]byte(nil), b...)
+			c05PrevH, c05PrevHCopy = h, string(append([]byte(nil), h...))
 			e["hex"] = hexDigits(h)
 			e["out2"] = "ok"
 		})
